@@ -128,7 +128,9 @@ func (env *SpecEnv) objVal(obj types.Object) specVal {
 	return specVal{}
 }
 
-func (env *SpecEnv) eval(e Expr) specVal {
+func (env *SpecEnv) eval(e Expr) specVal { return env.force(env.evalLazy(e)) }
+
+func (env *SpecEnv) evalLazy(e Expr) specVal {
 	u := env.u
 	c := u.c
 	switch x := e.(type) {
@@ -146,7 +148,7 @@ func (env *SpecEnv) eval(e Expr) specVal {
 			return v
 		}
 		if le, ok := env.lets[x.Name]; ok {
-			return env.eval(le)
+			return env.evalLazy(le)
 		}
 		if env.resolve != nil {
 			if v, ok := env.resolve(x.Name); ok {
@@ -171,7 +173,7 @@ func (env *SpecEnv) eval(e Expr) specVal {
 		o := *env.old
 		o.vars = env.vars // quantified variables remain visible
 		o.lets = env.lets
-		return o.eval(x.X)
+		return o.evalLazy(x.X)
 	case *EUnary:
 		switch x.Op {
 		case "!":
@@ -185,9 +187,12 @@ func (env *SpecEnv) eval(e Expr) specVal {
 			if !ok {
 				specFail("cannot dereference %s", exprString(x.X))
 			}
+			if u.leafSort(pt) == nil {
+				return specVal{t: pt, addr: v.v.T}
+			}
 			return specVal{v: u.load(env.st, v.v.T, pt, env.guard), t: pt, addr: v.v.T}
 		case "&":
-			v := env.eval(x.X)
+			v := env.evalLazy(x.X)
 			if v.addr == nil {
 				specFail("cannot take the address of %s", exprString(x.X))
 			}
@@ -417,6 +422,7 @@ func (env *SpecEnv) selectPath(base specVal, path []int) specVal {
 		t := cur.t
 		// auto-deref
 		if pt, ok := derefType(t); ok {
+			cur = env.force(cur)
 			cur = specVal{v: nil, t: pt, addr: cur.v.T}
 			t = pt
 		}
@@ -436,10 +442,15 @@ func (env *SpecEnv) selectPath(base specVal, path []int) specVal {
 			cur = specVal{v: cur.v.F[idx], t: ft}
 		}
 	}
-	if cur.v == nil && cur.addr != nil {
-		cur.v = u.load(env.st, cur.addr, cur.t, env.guard)
-	}
 	return cur
+}
+
+// force materialises a lazily loaded composite value.
+func (env *SpecEnv) force(v specVal) specVal {
+	if v.v == nil && v.addr != nil && v.t != nil {
+		v.v = env.u.load(env.st, v.addr, v.t, env.guard)
+	}
+	return v
 }
 
 func (env *SpecEnv) evalSel(x *ESel) specVal {
@@ -463,7 +474,7 @@ func (env *SpecEnv) evalSel(x *ESel) specVal {
 			}
 		}
 	}
-	base := env.eval(x.X)
+	base := env.evalLazy(x.X)
 	if base.t == nil {
 		specFail("cannot select .%s on untyped value %s", x.Name, exprString(x.X))
 	}
@@ -502,6 +513,9 @@ func (env *SpecEnv) evalIndex(x *EIndex) specVal {
 	case *types.Slice:
 		i := env.evalTerm(x.I)
 		a := c.SElem(base.v.T, i)
+		if u.leafSort(tt.Elem()) == nil {
+			return specVal{t: tt.Elem(), addr: a}
+		}
 		return specVal{v: u.load(env.st, a, tt.Elem(), env.guard), t: tt.Elem(), addr: a}
 	case *types.Map:
 		k := env.evalTerm(x.I)
@@ -590,6 +604,20 @@ func (env *SpecEnv) evalCall(x *ECall) specVal {
 		case "typeid":
 			t := env.resolveType(exprString(x.Args[0]))
 			return specVal{v: leaf(u.typeID(t))}
+		case "fst", "snd":
+			v := env.eval(x.Args[0])
+			i := 0
+			if id.Name == "snd" {
+				i = 1
+			}
+			if v.v.T != nil || len(v.v.F) <= i {
+				specFail("%s of a non-tuple", id.Name)
+			}
+			var t types.Type
+			if tup, ok := v.t.(*types.Tuple); ok {
+				t = tup.At(i).Type()
+			}
+			return specVal{v: v.v.F[i], t: t}
 		case "strlen":
 			return specVal{v: leaf(u.strLen(env.evalTerm(x.Args[0]))), t: types.Typ[types.Int]}
 		}
